@@ -699,7 +699,7 @@ class World(object):
                 params["taskToken"] = tok
             st, js, text = self._apic.call(call["action"], params)
             self.api_log.append({"step": self.step_no, "action": call["action"], "status": st, "type": (js or {}).get("__type") if isinstance(js, dict) else None,
-                                 "mangle": call.get("mangle"), "tag": call.get("tag")})
+                                 "mangle": call.get("mangle"), "tag": call.get("tag"), "params": params, "body": js if call.get("keep_body") else None})
             self.broker.log("api_call", action=call["action"], status=st, site=None)
         else:
             raise ValueError(op)
